@@ -865,15 +865,44 @@ mod spawn {
 			options: SpawnOptions { grouped: mode == "grouped", session: mode == "session", ..Default::default() },
 		}));
 		let envval = bind("T2", variant + 1);
+		let via = case["via"].as_str().unwrap_or("start").to_string();
+		let out1 = tmp.path().join("report1.json");
 		{
-			let out = out.clone();
+			let (out, out1) = (out.clone(), out1.clone());
 			let workdir = workdir.clone();
 			let envval = envval.clone();
+			let hold_first = via != "start";
+			let spawns = Arc::new(std::sync::atomic::AtomicUsize::new(0));
 			job.set_spawn_hook(move |cmd, _| {
-				cmd.command_mut().env("VERIF_OUT", &out).env("VERIF_X", &envval).current_dir(&workdir);
+				let n = spawns.fetch_add(1, std::sync::atomic::Ordering::SeqCst);
+				let c = cmd.command_mut();
+				c.env("VERIF_X", &envval).current_dir(&workdir);
+				if hold_first && n == 0 {
+					// the first child stays until the control under test replaces it
+					c.env("VERIF_OUT", &out1).env("VERIF_HOLD", "1");
+				} else {
+					c.env("VERIF_OUT", &out);
+				}
 			});
 		}
 		job.start().await;
+		if via != "start" {
+			// wait for the first child to be up, then let the control under test respawn
+			for _ in 0..400 {
+				if out1.exists() {
+					break;
+				}
+				tokio::time::sleep(std::time::Duration::from_millis(5)).await;
+			}
+			let grace = std::time::Duration::from_secs(5);
+			match via.as_str() {
+				"restart" => job.restart().await,
+				"try_restart" => job.try_restart().await,
+				"restart_with_signal" => job.restart_with_signal(watchexec_signals::Signal::Terminate, grace).await,
+				"try_restart_with_signal" => job.try_restart_with_signal(watchexec_signals::Signal::Terminate, grace).await,
+				other => panic!("unknown via {other}"),
+			}
+		}
 		job.to_wait().await;
 		job.delete_now().await;
 		let _ = task.await;
